@@ -271,6 +271,108 @@ _random_case = st.fixed_dictionaries(
 
 
 # --------------------------------------------------------------------------
+# part accepted: whatever compliant.rule_10 lets through must be computable
+
+
+_CAND_SEQ = [0]
+
+
+def exec_accepted(case):
+    '''a candidate moment - well-formed or not - is put before the real
+    compliant.rule_10 (as the events() factory of a package on disk); when the
+    rule accepts it, _delay must work at every probed instant'''
+    import importlib
+    import sys
+
+    import dawgie
+    import dawgie.pl.schedule as sched
+    import dawgie.tools.compliant as comp
+
+    out = core.Outcome()
+    c = case['cand']
+    t = ('None' if c['time'] is None
+         else 'datetime.time({}, {}, {})'.format(*c['time']))
+    day = ('None' if c['day'] is None
+           else 'datetime.date({}, {}, {})'.format(*c['day']))
+    src = (
+        'import datetime\nimport dawgie\n\n\ndef events():\n'
+        f'    return [dawgie.EVENT(dawgie.ALG_REF(None, None), '
+        f'dawgie.MOMENT({c["boot"]!r}, {day}, {c["dom"]!r}, {c["dow"]!r}, '
+        f'{t}))]\n'
+    )
+    root = world.fresh_dir('c20pkg')
+    _CAND_SEQ[0] += 1
+    name = f'vfc20p{_CAND_SEQ[0]}'
+    import os
+
+    os.makedirs(os.path.join(root, name))
+    with open(os.path.join(root, name, '__init__.py'), 'wt',
+              encoding='utf-8') as f:
+        f.write(src)
+    sys.path.insert(0, root)
+    real = sched.datetime
+    try:
+        try:
+            ok = bool(comp.rule_10(name))
+        except Exception:  # pylint: disable=broad-except
+            ok = False  # "any exception counts as failure"
+        selectors = [c['boot'] is not None, c['day'] is not None,
+                     c['dom'] is not None, c['dow'] is not None]
+        wellformed = (
+            sum(selectors) == 1
+            and (c['boot'] is not None or c['time'] is not None)
+            and (c['dom'] is None or isinstance(c['dom'], int))
+            and (c['dow'] is None or isinstance(c['dow'], int))
+        )
+        out.label('accepted' if ok else 'rejected')
+        if not wellformed:
+            out.nontrivial = True
+            out.label('malformed-candidate')
+        if ok:
+            ev = importlib.import_module(name).events()[0]
+            in_range = ((c['dom'] is None or 1 <= c['dom'] <= 31)
+                        and (c['dow'] is None or 0 <= c['dow'] <= 6))
+            for now in case['nows']:
+                clock = world.Clock(datetime.datetime(*now, tzinfo=UTC))
+                sched.datetime = world.fake_datetime_module(clock)
+                sched.booted.clear()
+                try:
+                    sched._delay(ev)
+                except Exception as exc:  # pylint: disable=broad-except
+                    if not in_range:
+                        out.label('out-of-documented-range')
+                        continue
+                    out.fail(
+                        f'delay/raises-{type(exc).__name__}@accepted-by-rule_10',
+                        f'rule_10 accepts MOMENT(boot={c["boot"]}, day='
+                        f'{c["day"]}, dom={c["dom"]}, dow={c["dow"]}, time='
+                        f'{c["time"]}) but _delay at {now} raised '
+                        f'{type(exc).__name__}: {exc}',
+                    )
+                    break
+    finally:
+        sched.datetime = real
+        sched.booted.clear()
+        sys.path.remove(root)
+        sys.modules.pop(name, None)
+        world.rm(root)
+    return out
+
+
+_cand = st.fixed_dictionaries({
+    'boot': st.sampled_from([None, None, None, True]),
+    'day': st.sampled_from([None, None, None, [2024, 2, 29], [2026, 12, 31]]),
+    'dom': st.sampled_from([None, None, None, 1, 15, 29, 31, '3']),
+    'dow': st.sampled_from([None, None, None, 0, 3, 6, '2']),
+    'time': st.one_of(st.none(), _time),
+})
+_accepted_case = st.fixed_dictionaries({
+    'cand': _cand,
+    'nows': st.lists(st.one_of(_now, _near_now()), min_size=2, max_size=4),
+})
+
+
+# --------------------------------------------------------------------------
 # history
 
 
@@ -486,6 +588,8 @@ def parts(tier):
                       + ' x 3 instants per day')),
         core.Part('random', exec_delay, strategy=_random_case,
                   cases=8000 if q else 400000, batch=1000),
+        core.Part('accepted', exec_accepted, strategy=_accepted_case,
+                  cases=1200 if q else 30000, batch=300),
         core.Part('history', exec_history, strategy=_histories(),
                   cases=320 if q else 12000, batch=40),
     ]
